@@ -6,6 +6,7 @@ mod c05;
 mod c08;
 mod c09;
 mod c10;
+mod c11;
 mod c12;
 mod c14;
 mod storeops;
@@ -81,6 +82,7 @@ fn main() {
         "C08" => run(c08::C08::new(), &args, 700, 20000),
         "C09" => run(c09::C09::new(), &args, 400, 8000),
         "C10" => run(c10::C10::new(), &args, 300, 5000),
+        "C11" => run(c11::C11::new(), &args, 600, 10000),
         "C12" => run(c12::C12::new(), &args, 600, 10000),
         "C13" => run(storeprops::StoreProp::new("C13"), &args, 2500, 40000),
         "C16" => run(storeprops::StoreProp::new("C16"), &args, 1500, 20000),
